@@ -15,7 +15,6 @@ mod hlp;
 mod genp;
 mod exec;
 mod diff;
-#[cfg(feature = "std")]
 mod mon_exec;
 mod mon_c06;
 mod replay;
@@ -94,8 +93,9 @@ fn main() {
     let mut rep = report::Report::new(&a.prop, &a.variant);
     let t0 = std::time::Instant::now();
     match a.prop.as_str() {
+        "C01" | "C03" => mon_exec::run(&a.prop.clone(), &a, &mut rep),
         #[cfg(feature = "std")]
-        "C01" | "C03" | "C04" => mon_exec::run(&a.prop.clone(), &a, &mut rep),
+        "C04" => mon_exec::run(&a.prop.clone(), &a, &mut rep),
         "C06" => mon_c06::run(&a, &mut rep),
         "C18" => mon_c18::run(&a, &mut rep),
         "C10" => mon_c10::run(&a, &mut rep),
